@@ -1626,12 +1626,125 @@ fn pinned_text(src: &Src, fname: &str) -> R<(String, usize)> {
 }
 
 
+// ---------------------------------------------------------------------------
+// src/main.rs: the validation block of main(), translated to `x_validate` (same signature as Main.validate)
+// ---------------------------------------------------------------------------
+fn verr_code(e: &Expr) -> R<u64> {
+    let t = quote::ToTokens::to_token_stream(e).to_string();
+    for (m, c) in [("No source files found", 4), ("Cannot copy a directory to a file", 5), ("Multiple sources and destination is not a directory", 6),
+                   ("Source does not exist", 7), ("--recursive not specified", 8), ("Cannot copy a directory into itself", 9),
+                   ("Source is same as destination", 9), ("Failed to find source directory name", 10),
+                   ("Multiple sources map to the same destination", 11)] {
+        if t.contains(m) { return Ok(c); }
+    }
+    Err(format!("unknown validation error: {}", t))
+}
+
+fn vexpr(e: &Expr) -> R<String> {
+    match e {
+        Expr::Paren(p) => Ok(format!("({})", vexpr(&p.expr)?)),
+        Expr::Unary(u) if matches!(u.op, UnOp::Not(_)) => Ok(format!("(negb {})", vexpr(&u.expr)?)),
+        Expr::Binary(b) if matches!(b.op, BinOp::And(_)) => Ok(format!("({} && {})", vexpr(&b.left)?, vexpr(&b.right)?)),
+        Expr::Binary(b) if matches!(b.op, BinOp::Or(_)) => Ok(format!("({} || {})", vexpr(&b.left)?, vexpr(&b.right)?)),
+        _ => {
+            let t = quote::ToTokens::to_token_stream(e).to_string().replace(' ', "");
+            Ok(match t.as_str() {
+                "sources.is_empty()" => "(match sources with [] => true | _ => false end)",
+                "dest.is_dir()" => "(is_dir dest)", "dest.exists()" => "(exists_ dest)",
+                "sources.len()==1" => "(Nat.eqb (List.length sources) 1)", "sources.len()>1" => "(Nat.ltb 1 (List.length sources))",
+                "sources[0].is_dir()" => "(is_dir (hd [] sources))",
+                "source.exists()" => "(exists_ source)", "source.is_dir()" => "(is_dir source)",
+                "opts.recursive" => "(o_recursive o)", "opts.no_target_directory" => "(o_no_target_dir o)",
+                "source==&dest" => "(path_eqb source dest)", "source==&target_base" => "(path_eqb source target_base)",
+                "target_base.exists()" => "(exists_ target_base)", "target_base.is_dir()" => "(is_dir target_base)",
+                "libfs::is_same_file(source,&target_base)?" => "(same_file source target_base)",
+                "targets.contains(&target_base)" => "(existsb (path_eqb target_base) targets)",
+                other => return Err(format!("validation: unsupported condition `{}`", other)),
+            }.to_string())
+        }
+    }
+}
+
+/// statements with early `return Err(..)`; `k` is the continuation (a Gallina term of type option N)
+fn vstmts(stmts: &[Stmt], k: &str) -> R<String> {
+    if stmts.is_empty() { return Ok(k.to_string()); }
+    let (st, rest) = (&stmts[0], &stmts[1..]);
+    let t = quote::ToTokens::to_token_stream(st).to_string().replace(' ', "");
+    if t.starts_with("info!") || t.starts_with("debug!") { return vstmts(rest, k); }
+    match st {
+        Stmt::Expr(Expr::If(i), _) => vif(i, rest, k),
+        Stmt::Expr(Expr::Return(r), _) => {
+            let v = r.expr.as_ref().ok_or("return without value")?;
+            Ok(format!("Some {}", verr_code(v)?))
+        }
+        Stmt::Local(l) => {
+            let name = pat_ident(&l.pat).ok_or("validation: let pattern")?;
+            let init = quote::ToTokens::to_token_stream(&l.init.as_ref().ok_or("let without init")?.expr).to_string().replace(' ', "");
+            if name == "sourcedir" {
+                if !init.starts_with("source.components().next_back().ok_or(") || !init.ends_with(")?") { return Err(format!("validation: sourcedir = {}", init)); }
+                let code = verr_code(&l.init.as_ref().unwrap().expr)?;
+                let tail = vstmts(rest, k)?;
+                return Ok(format!("match last_comp source with\n      | None => Some {}\n      | Some sourcedir =>\n      {}\n      end", code, tail));
+            }
+            if name == "target_base" {
+                let i = match &*l.init.as_ref().unwrap().expr { Expr::If(i) => i, _ => return Err("validation: target_base is not an if".into()) };
+                let c = vexpr(&i.cond)?;
+                let th = quote::ToTokens::to_token_stream(&i.then_branch).to_string().replace(' ', "");
+                let el = quote::ToTokens::to_token_stream(&i.else_branch.as_ref().ok_or("no else")?.1).to_string().replace(' ', "");
+                if th != "{dest.join(sourcedir)}" || el != "{dest.to_path_buf()}" { return Err(format!("validation: target_base branches {} / {}", th, el)); }
+                let tail = vstmts(rest, k)?;
+                return Ok(format!("let target_base := if {} then join dest [sourcedir] else dest in\n      {}", c, tail));
+            }
+            Err(format!("validation: unexpected let {}", name))
+        }
+        Stmt::Expr(Expr::MethodCall(m), _) if m.method == "push" && t == "targets.push(target_base);" => {
+            let tail = vstmts(rest, k)?;
+            Ok(format!("let targets := targets ++ [target_base] in\n      {}", tail))
+        }
+        _ => Err(format!("validation: unsupported statement {}", t)),
+    }
+}
+
+fn vif(i: &syn::ExprIf, rest: &[Stmt], k: &str) -> R<String> {
+    let c = vexpr(&i.cond)?;
+    let mut th: Vec<Stmt> = i.then_branch.stmts.clone();
+    th.extend_from_slice(rest);
+    let t = vstmts(&th, k)?;
+    let e = match &i.else_branch {
+        None => vstmts(rest, k)?,
+        Some((_, e)) => match &**e {
+            Expr::If(i2) => vif(i2, rest, k)?,
+            Expr::Block(b) => { let mut el = b.block.stmts.clone(); el.extend_from_slice(rest); vstmts(&el, k)? }
+            _ => return Err("validation: else branch".into()),
+        },
+    };
+    Ok(format!("if {} then {} else\n      {}", c, t, e))
+}
+
+fn main_validation(src: &Src) -> R<String> {
+    let (_, block) = find_fn(src, "main")?;
+    let norm = |t: &dyn quote::ToTokens| quote::ToTokens::to_token_stream(t).to_string().replace(' ', "");
+    let start = block.stmts.iter().position(|s| norm(s).starts_with("letsources=expand_sources(")).ok_or("main: `let sources = expand_sources` not found")?;
+    let pre = match &block.stmts[start + 1] { Stmt::Expr(Expr::If(i), _) => i, _ => return Err("main: the emptiness / destination check does not follow".into()) };
+    if !norm(&block.stmts[start + 2]).starts_with("letmuttargets:Vec<PathBuf>=Vec::with_capacity(") { return Err("main: `let mut targets`".into()); }
+    let fl = match &block.stmts[start + 3] { Stmt::Expr(Expr::ForLoop(f), _) => f, _ => return Err("main: the per-source loop does not follow".into()) };
+    if norm(&fl.pat) != "source" || norm(&fl.expr) != "&sources" { return Err("main: loop header".into()); }
+    let body = vstmts(&fl.body.stmts, "x_check_sources dest targets rest")?;
+    let head = vif(pre, &[], "x_check_sources dest [] sources")?;
+    Ok(format!("(* {}:{}  main(): the validation block — every `return Err` before the driver is started *)\n\
+Section XValidate.\n  Variable exists_ is_dir : path -> bool.\n  Variable same_file : path -> path -> bool.\n  Variable o : opts.\n\n\
+  Fixpoint x_check_sources (dest : path) (targets : list path) (ss : list path) : option N :=\n    match ss with\n    | [] => None\n    | source :: rest =>\n      {}\n    end.\n\n\
+  Definition x_validate (sources : list path) (dest : path) : option N :=\n      {}.\nEnd XValidate.\n",
+        src.path, pre.span().start().line, body, head))
+}
+
+
 fn main() {
     let root = std::env::args().nth(1).unwrap_or_else(|| "/repo".to_string());
     let root = Path::new(&root);
     let mut out = String::new();
     out.push_str("(* Extracted.v — GENERATED by /verif/xlate from the current source of the repository on every run.\n   Do not edit.  See xlate/src/main.rs for the supported Rust subset; coq/proofs/ExtractedOk.v proves that\n   every definition below equals the hand-written model's. *)\n");
-    out.push_str("From XcpModel Require Import Base Extents Sparse CopyLoop Uspace.\nFrom Coq Require Import String.\nLocal Open Scope string_scope.\nLocal Open Scope N_scope.\nLocal Open Scope list_scope.\n\n");
+    out.push_str("From XcpModel Require Import Base Extents Sparse CopyLoop Uspace Backup Paths Walker Main.\nFrom Coq Require Import String.\nLocal Open Scope string_scope.\nLocal Open Scope N_scope.\nLocal Open Scope list_scope.\n\n");
     let mut failures = vec![];
     let mut emit = |label: &str, r: R<String>, out: &mut String| match r {
         Ok(s) => { out.push_str(&s); out.push('\n'); }
@@ -1675,6 +1788,10 @@ fn main() {
     match load(root, "libxcp/src/feedback.rs") {
         Ok(src) => emit("send", send_condition(&src), &mut out),
         Err(e) => emit("feedback.rs", Err(e), &mut out),
+    }
+    match load(root, "src/main.rs") {
+        Ok(src) => emit("main validation", main_validation(&src), &mut out),
+        Err(e) => emit("src/main.rs", Err(e), &mut out),
     }
     match load(root, "src/options.rs") {
         Ok(src) => emit("Config::from", config_block_size(&src), &mut out),
